@@ -113,6 +113,30 @@ pub fn c01(g: &mut Gen) {
     } else {
         vec![(100_000, 10, false), (100_000, 10, true), (150_000, 4100, false)]
     };
+    // a long superblock that is NOT the first one (its pointer into the long array is taken after earlier short / long
+    // superblocks): dense prefix then sparse tail, and two consecutive long superblocks; for ones and for zeros
+    for invert in [false, true] {
+        let mut layouts: Vec<Vec<bool>> = Vec::new();
+        let mut a = vec![invert; 120_000];
+        for i in 0..5000 { a[i] = !invert; }
+        for j in 0..6 { a[20_000 + j * 15_000] = !invert; }
+        layouts.push(a);
+        let mut b = vec![invert; 230_000];
+        for i in 0..4096 { b[26 * i] = !invert; }
+        for j in 0..10 { b[110_000 + j * 11_000] = !invert; }
+        layouts.push(b);
+        for bits in layouts {
+            let len = bits.len();
+            let mut lines = vec![format!("bv A from_raw {} {}", len, words_of_bits(&bits)), "bv A enable rsz".to_string()];
+            let cnt = bits.iter().filter(|b| **b != invert).count();
+            let op = if invert { "select0" } else { "select" };
+            for r in [0usize, 1, 63, 64, 4095, 4096, 4097, 4098, 4100, cnt - 2, cnt - 1, cnt] { lines.push(format!("bv A {} {}", op, r)); }
+            for r in (4096..cnt).step_by(std::cmp::max(1, (cnt - 4096) / 40)) { lines.push(format!("bv A {} {}", op, r)); }
+            for x in [0usize, 4999, 5000, 5001, 19_999, 20_000, 20_001, 100_000, len - 1] { lines.push(format!("bv A pred {}", x)); lines.push(format!("bv A succ {}", x)); }
+            lines.push("bv A ser".to_string());
+            g.group(lines);
+        }
+    }
     for (len, k, invert) in long_cases {
         let mut bits = vec![invert; len];
         let step = len / (k + 1);
